@@ -5,6 +5,12 @@
 (* Item kinds and the capability they need when first used:                *)
 (*   "file" "http" "command"   external placeholder sources   -> "ext"     *)
 (*   "ptemplate" "ftemplate"   template with a Python vars file -> "vars"  *)
+(*   "jcmd" "jvars" "jfile"    a template whose TEXT reaches for a         *)
+(*                             capability through the objects it is given  *)
+(*                             (loads a pipeline with opt-in arguments of  *)
+(*                             its own, calls methods of a path object):   *)
+(*                             the template language is part of the        *)
+(*                             document, so this is self-grant as well     *)
 (* A capability may come from exactly two places: the CALLER's opt-in      *)
 (* argument when the pipeline is loaded, or the documented environment     *)
 (* variable (values 1 / true, case-insensitive).  Keys of the same names   *)
@@ -19,8 +25,9 @@
 (***************************************************************************)
 EXTENDS Integers, Sequences, FiniteSets
 
-Kinds == {"file", "http", "command", "ptemplate", "ftemplate"}
-CapOf(k) == IF k \in {"file", "http", "command"} THEN "ext" ELSE "vars"
+Kinds == {"file", "http", "command", "ptemplate", "ftemplate", "jcmd", "jvars", "jfile"}
+CapOf(k) == IF k \in {"file", "http", "command", "jcmd", "jfile"} THEN "ext" ELSE "vars"
+ViaTemplateText(k) == k \in {"jcmd", "jvars", "jfile"}
 EnvValues == {"unset", "0", "1", "true", "TRUE", "yes"}
 EnvTruthy(v) == v \in {"1", "true", "TRUE"}
 PathClasses == {"inside", "outside", "symlink", "sibling"}     \* sibling: /base_evil next to /base
